@@ -792,7 +792,9 @@ AdvPlain(src, dst, cid, mt) ==
 \* a destroy signed by the attacker, or a genuine destroy replayed to another node / circuit id
 ForgeDestroy(src, dst, cid, signer) ==
   /\ AdvStep /\ src \in Everyone /\ dst \in Node /\ cid \in 1..ctr.cid
-  /\ signer = Adv \/ \E d \in wire : d.t = "destroy" /\ d.signer = signer /\ d.cid = cid
+  \* signed with the attacker's own key, a genuine destroy seen on the wire re-sent, or ("nobody") naming somebody's key
+  \* under a signature that does not verify
+  /\ signer = Adv \/ signer = "nobody" \/ \E d \in wire : d.t = "destroy" /\ d.signer = signer /\ d.cid = cid
   /\ AdvPut(Destroy(src, dst, cid, signer)) /\ AdvFrame
 \* handshake manipulation of an in-flight created / extended answer
 MangleAnswer(d, how, newcid) ==
